@@ -196,6 +196,56 @@ def check_compose(n: int, k0: int, k1: int, k2: int, form: int, bufsize: int,
     return h.ok(got == want)
 
 
+STATELESS = (0, 1, 2, 3, 4, 5, 6, 8, 9, 10, 15)
+
+
+def check_reuse(n: int, k0: int, k1: int, form: int, xs: List[int], with_ctx: bool) -> bool:
+    """
+    pre: 1 <= n <= 2
+    pre: 0 <= k0 < B.NK and 0 <= k1 < B.NK
+    pre: 0 <= form <= 3
+    pre: len(xs) <= B.FLOW
+    pre: h.in_shard(k0)
+    post: _
+    """
+    # the same Sequence / Source object used again, and a nested Sequence used
+    # on its own after it was nested, still compute the same composition
+    # (elements without state of their own)
+    kinds = [h.concrete(k, 0, B.NK - 1) for k in [k0, k1][:n]]
+    for k in kinds:
+        if k not in STATELESS:
+            return True
+    with patched_deque():
+        want = mkflow(xs, with_ctx)
+        for k in kinds:
+            want = alone(make(k, 1), want)
+        els = [make(k, 1) for k in kinds]
+        if form == 0:
+            seq = Sequence(*els)
+            a = list(seq.run(iter(mkflow(xs, with_ctx))))
+            b = list(seq.run(iter(mkflow(xs, with_ctx))))
+            return h.ok(a == want and b == want)
+        if form == 1:
+            src = Source(mkflow(xs, with_ctx), *els)
+            a = list(src())
+            b = list(src())
+            return h.ok(a == want and b == want)
+        if form == 2:
+            src = Source(_Gen(mkflow(xs, with_ctx)), *els)
+            a = list(src())
+            b = list(src())
+            return h.ok(a == want and b == want)
+        # a Sequence nested first in another one keeps its own meaning
+        inner = Sequence(els[0])
+        outer = Sequence(inner, *els[1:])
+        a = list(outer.run(iter(mkflow(xs, with_ctx))))
+        inner_want = alone(make(kinds[0], 1), mkflow(xs, with_ctx))
+        b = list(inner.run(iter(mkflow(xs, with_ctx))))
+        c = list(Source(_Gen(mkflow(xs, with_ctx)), inner, *els[1:])())
+        d = list(inner.run(iter(mkflow(xs, with_ctx))))
+        return h.ok(a == want and b == inner_want and c == want and d == inner_want)
+
+
 BAD = [5, None, "s", object(), [1], 2.5, _RunNotCallable(), _FillNotCallable()]
 
 
@@ -248,6 +298,9 @@ CONDITIONS = [
          smoke=["check_compose(2, 1, 7, 0, 0, 1, [1, 2], True)", "check_compose(2, 11, 0, 0, 5, 1, [1, 2], False)",
                 "check_compose(2, 13, 5, 0, 2, 2, [1, 2], True)", "check_compose(0, 0, 0, 0, 4, 1, [4], False)",
                 "check_compose(2, 14, 9, 0, 3, 1, [4, 6], False)"]),
+    dict(fn="check_reuse", shards=(16, 16), budget=(70, 600),
+         smoke=["check_reuse(2, 0, 4, 0, [1, 2], False)", "check_reuse(2, 1, 2, 1, [1, 2], True)",
+                "check_reuse(2, 0, 6, 3, [1, 2, 3], False)", "check_reuse(1, 9, 0, 2, [1, 2], False)"]),
     dict(fn="check_bad_element", shards=(16, 16), budget=(70, 600),
          smoke=["check_bad_element(2, 0, 7, 1, 1, False)", "check_bad_element(0, 0, 7, 0, 2, True)"]),
     dict(fn="check_flatten", budget=(60, 600), smoke=["check_flatten(3, 0, 11, 3, 1)"]),
